@@ -955,8 +955,10 @@ class IteratorProxy(BaseProxy):
         return self._callmethod('close', args)
 
 
-@add_proxy_methods('__getattribute__')
 class NamespaceProxy(BaseProxy):
+    # Do not generate a `__getattribute__` proxy method for this class: it would intercept
+    # every attribute access on the proxy itself (`self._callmethod`, `self._token`, ...)
+    # and recurse forever. Attribute access on the referent goes through `__getattr__` below.
     def __getattr__(self, key):
         if key[0] == '_':
             return object.__getattribute__(self, key)
